@@ -1,6 +1,6 @@
 """Per-property wording for MANIFEST.json."""
 
-HOOK_COMMITS = ["173a0a4"]
+HOOK_COMMITS = ["173a0a4", "9168683"]
 
 TEXT = {
     "C01": {
@@ -77,6 +77,11 @@ TEXT = {
         "technique": "property-based testing (rapid): generated client message sequences against a deterministic store model (cache handler: complete output compared reply by reply) and a prefix-tolerant model (SQLite handler, asynchronous insertion; exact after an observed flush); differential dump/restore with identical-answer and byte-identical second dump checks",
         "level_text": "Exploration: the whole reply stream of each generated session is compared with the model's concatenated expected replies; dump/restore is a differential check between the original and the restored handler on generated queries, including caches of 60-150 events with timestamp ties.",
         "level_note": "Trusted: harness/model/detstore.go (ties excluded by construction for the cache replies), sqlitemodel.go. SQLite REQ answers may reflect any prefix of the submitted events until the flush marker is visible.",
+    },
+    "C07": {
+        "technique": "property-based testing (rapid) against one shared RouterHandler: (seq) harness-owned global schedule with sentinel flushes and a registry model for exact deliveries; (conc) generated concurrent scripts judged by a real-time must/must-not/may rule over logical timestamps; (stall) back-pressure scenarios with a non-reading subscriber",
+        "level_text": "Exploration: exact per-event delivery sets in the sequential mode (every step runs to completion, FIFO sentinel flush instead of sleeps), sampled Go-scheduler interleavings in the concurrent mode (also under -race in thorough), and bounded-time publisher progress with a stalled subscriber.",
+        "level_note": "Trusted: registry model + real-time rule (DESIGN.md A.3). Concurrent mode samples the scheduler; it cannot enumerate interleavings inside the registry's locks. 'Never delays publishers' is a 10 s bound (normal: microseconds).",
     },
     "C10": {
         "technique": "property-based testing (rapid): grammar-generated wire texts with near-miss mutations against a no-panic / completeness / decode-encode-decode oracle, value round trips for all 14 types, repository corpus replay; native go fuzz target in the thorough tier",
